@@ -16,6 +16,13 @@
      c01_radiotap_safe_instance_{good,overlong}
      c01_classify_safe_instance_{one_byte,truncated_header,truncated_radiotap}
      c01_fcs_safe_instance_{good,corrupt}
+   c01_ie_decoders_safe assumes wfbytes buf and agrees rd buf:
+     c01_ie_decoders_safe_nonvacuous        a 3-octet range under rd_strict, the empty range under an oracle that
+                                            faults on EVERY address
+     c01_ie_decoders_safe_instance_{three,empty,cut_rsn,wpa,msft_short,msft_wps}
+     c01_ie_decoders_no_read                the model run on lengths 0..5 (RSN, WPA) and 0..3 (Microsoft handler)
+                                            under the everywhere-faulting oracle: Done, so nothing was read; one octet
+                                            more and the first read faults
    Skipped: none. *)
 From LW Require Import Base.Bytes Model.TagIter Model.Radiotap Model.Frame Model.CRC Model.Eapol Model.Security Model.Mgmt
   Spec.CRCSpec Proofs.SafetyProofs Properties.Properties_C01.
@@ -269,3 +276,98 @@ Definition THREE_BYTES : list byte := [128; 0; 0].
 Example c01_fcs_safe_instance_short :
   frame_verify (rd_strict THREE_BYTES) (zlen THREE_BYTES) = Done 0.
 Proof. assert (W : wfbytes THREE_BYTES) by wf. destruct (c01_fcs_safe THREE_BYTES W) as [_ Hv]. value_of Hv. Qed.
+
+(* ---------- c01_ie_decoders_safe ---------- *)
+(* the element decoders handed byte ranges directly.  RD_NOTHING faults on every address *)
+Definition RD_NOTHING : Z -> res byte := rd_strict [].
+Definition RSN_THREE : list byte := [1; 0; 0].                              (* version and one octet of the group suite *)
+Example c01_ie_decoders_safe_nonvacuous :
+  (wfbytes RSN_THREE /\ agrees (rd_strict RSN_THREE) RSN_THREE) /\ (wfbytes [] /\ agrees RD_NOTHING []) /\
+  (forall i, RD_NOTHING i = Fault OobRead i).
+Proof.
+  split; [split; [wf | apply agrees_strict]|]. split; [split; [constructor | apply agrees_strict]|].
+  intros i. unfold RD_NOTHING, rd_strict. change (zlen []) with 0.
+  destruct (0 <=? i) eqn:A; destruct (i <? 0) eqn:B; try reflexivity.
+  apply Z.leb_le in A. apply Z.ltb_lt in B. exfalso. apply (Z.lt_irrefl 0). eapply Z.le_lt_trans; eassumption.
+Qed.
+(* three octets: refused (before the repair of F45 octets 3, 4, 5 behind the range were read) *)
+Example c01_ie_decoders_safe_instance_three :
+  get_rsn_info (rd_strict RSN_THREE) 0 (zlen RSN_THREE) = Done (Err (-22)) /\
+  get_wpa_info (rd_strict RSN_THREE) 0 (zlen RSN_THREE) = Done (Err (-22)) /\
+  handle_msft (rd_strict RSN_THREE) bss0 0 (zlen RSN_THREE) = Done (Err (-22)).
+Proof.
+  destruct c01_ie_decoders_safe_nonvacuous as [[W A] _].
+  destruct (c01_ie_decoders_safe RSN_THREE _ W A) as [H1 [H2 H3]]. specialize (H3 bss0).
+  split; [value_of H1|]. split; [value_of H2 | value_of H3].
+Qed.
+(* the empty range under the oracle that faults everywhere *)
+Example c01_ie_decoders_safe_instance_empty :
+  get_rsn_info RD_NOTHING 0 0 = Done (Err (-22)) /\ get_wpa_info RD_NOTHING 0 0 = Done (Err (-22)) /\
+  handle_msft RD_NOTHING bss0 0 0 = Done (Err (-22)).
+Proof.
+  destruct c01_ie_decoders_safe_nonvacuous as [_ [[W A] _]].
+  destruct (c01_ie_decoders_safe [] _ W A) as [H1 [H2 H3]]. specialize (H3 bss0).
+  change (zlen []) with 0 in *.
+  split; [value_of H1|]. split; [value_of H2 | value_of H3].
+Qed.
+(* an RSN body cut inside its pairwise list (count 1, two octets of the suite): refused, reads stay inside;
+   the whole body decodes *)
+Definition RSN_BODY : list byte := skipn 2 RSNIE.
+Definition RSN_CUT : list byte := firstn 10 RSN_BODY.
+Example c01_ie_decoders_safe_instance_cut_rsn :
+  get_rsn_info (rd_strict RSN_CUT) 0 (zlen RSN_CUT) = Done (Err (-22)) /\
+  get_rsn_info (rd_strict RSN_BODY) 0 (zlen RSN_BODY) =
+    Done (Ok {| r_version := 1; r_group := ([0; 15; 172], 4); r_pairwise := [([0; 15; 172], 4)];
+                r_akms := [([0; 15; 172], 2)]; r_caps := 0 |}) /\
+  (* version + group suite only: the shortest element that decodes (F46) *)
+  get_rsn_info (rd_strict (firstn 6 RSN_BODY)) 0 6 =
+    Done (Ok {| r_version := 1; r_group := ([0; 15; 172], 4); r_pairwise := []; r_akms := []; r_caps := 0 |}).
+Proof.
+  assert (W1 : wfbytes RSN_CUT) by wf. assert (W2 : wfbytes RSN_BODY) by wf. assert (W3 : wfbytes (firstn 6 RSN_BODY)) by wf.
+  destruct (c01_ie_decoders_safe RSN_CUT _ W1 (agrees_strict _)) as [H1 _].
+  destruct (c01_ie_decoders_safe RSN_BODY _ W2 (agrees_strict _)) as [H2 _].
+  destruct (c01_ie_decoders_safe (firstn 6 RSN_BODY) _ W3 (agrees_strict _)) as [H3 _].
+  change (zlen (firstn 6 RSN_BODY)) with 6 in H3.
+  split; [value_of H1|]. split; [value_of H2 | value_of H3].
+Qed.
+(* what follows the vendor header of a WPA element (version, TKIP multicast, one unicast suite promised, half of it
+   present): refused; the Microsoft element handler on whole vendor bodies: a 3-octet body (no type octet) is refused,
+   a WPS body sets the flag *)
+Definition WPA_TAIL_CUT : list byte := [1; 0; 0; 80; 242; 2; 1; 0; 0; 80].
+Definition MSFT_SHORT : list byte := [0; 80; 242].
+Definition MSFT_WPS : list byte := [0; 80; 242; 4; 16; 74; 0; 1; 16].
+Example c01_ie_decoders_safe_instance_wpa :
+  get_wpa_info (rd_strict WPA_TAIL_CUT) 0 (zlen WPA_TAIL_CUT) = Done (Err (-22)).
+Proof.
+  assert (W : wfbytes WPA_TAIL_CUT) by wf.
+  destruct (c01_ie_decoders_safe WPA_TAIL_CUT _ W (agrees_strict _)) as [_ [H _]]. value_of H.
+Qed.
+Example c01_ie_decoders_safe_instance_msft_short :
+  handle_msft (rd_strict MSFT_SHORT) bss0 0 (zlen MSFT_SHORT) = Done (Err (-22)).
+Proof.
+  assert (W : wfbytes MSFT_SHORT) by wf.
+  destruct (c01_ie_decoders_safe MSFT_SHORT _ W (agrees_strict _)) as [_ [_ H]]. specialize (H bss0). value_of H.
+Qed.
+Example c01_ie_decoders_safe_instance_msft_wps :
+  exists b, handle_msft (rd_strict MSFT_WPS) bss0 0 (zlen MSFT_WPS) = Done (Ok b) /\ b_wps b = 1 /\ b_enc b = 0.
+Proof.
+  assert (W : wfbytes MSFT_WPS) by wf.
+  destruct (c01_ie_decoders_safe MSFT_WPS _ W (agrees_strict _)) as [_ [_ H]]. specialize (H bss0).
+  destruct H as [o [E _]]. rewrite E. vm_compute in E. injection E as <-.
+  eexists. split; [reflexivity|]. split; reflexivity.
+Qed.
+(* no read at all on a range too short for the mandatory part: the model completes under the oracle that faults on
+   every address; with the first length that passes the check the first read happens (and faults here) *)
+Example c01_ie_decoders_no_read :
+  (forall len, In len [0; 1; 2; 3; 4; 5] ->
+     get_rsn_info RD_NOTHING 0 len = Done (Err (-22)) /\ get_wpa_info RD_NOTHING 0 len = Done (Err (-22))) /\
+  (forall len, In len [0; 1; 2; 3] -> handle_msft RD_NOTHING bss0 0 len = Done (Err (-22))) /\
+  get_rsn_info RD_NOTHING 0 6 = Fault OobRead 0 /\ get_wpa_info RD_NOTHING 0 6 = Fault OobRead 0 /\
+  handle_msft RD_NOTHING bss0 0 4 = Fault OobRead 3.
+Proof.
+  split; [|split; [|split; [|split]]]; try (vm_compute; reflexivity).
+  - intros len H. cbn [In] in H.
+    repeat (destruct H as [<-|H]; [split; vm_compute; reflexivity|]). contradiction.
+  - intros len H. cbn [In] in H.
+    repeat (destruct H as [<-|H]; [vm_compute; reflexivity|]). contradiction.
+Qed.
